@@ -255,3 +255,12 @@ func AsDenseDiag(backing interface{}) ConsOpt {
 	}
 	return f
 }
+
+// withOrderOf makes a tensor under construction column-major if t is: a freshly allocated result that is filled by the
+// flat (non-iterator) kernels has to have the data order of the operands it is filled from.
+func withOrderOf(t Tensor) ConsOpt {
+	if t != nil && t.DataOrder().IsColMajor() {
+		return AsFortran(nil)
+	}
+	return func(Tensor) {}
+}
